@@ -9,8 +9,9 @@ from rules import PL
 from props.C12 import chunk_rules
 
 META = {
+    "explanation_r6": 'Also (round 6): chunk_get refuses a fetched record only for a wrong kind or a wrong address — no size limit of its own on honestly stored chunks (C14.fetch.chunk.total).',
     "explanation_more": "Also (round 5): DataMapLevel's variants are written under distinct names the reader maps back (C14.levels.names); results leave the set of running download tasks only through next().await and each is pushed to the returned list (C14.tasks.all.results); the reader's level dispatch is decided on paths from the entry (either loop shape).",
-    "explanation_more": 'Also (round 4): encrypt, pack_data_map, fetch_from_data_map and fetch_from_data_map_chunk answer Err only where one of their fallible calls failed — no size, count or depth limit of their own (C14.total.*).',
+    "explanation_more2": 'Also (round 4): encrypt, pack_data_map, fetch_from_data_map and fetch_from_data_map_chunk answer Err only where one of their fallible calls failed — no size, count or depth limit of their own (C14.total.*).',
     "explanation": "Decides: (1) every chunk leaving encrypt / pack_data_map is built by Chunk::new (address = hash of content) and no other "
                    "Chunk{..} literal exists; (2) the data-map chunk returned by pack_data_map is cut by MAX_CHUNK_SIZE >= "
                    "chunk.serialised_size(); (3) level protocol: pack_data_map wraps the source data map as DataMapLevel::First before the "
